@@ -8,10 +8,14 @@ PROPS = {
         level="exploration",
         technique="property-based testing (rapid): generated issue/fail/succeed histories over the real request builders and token "
                   "generator against a token-ledger model; real OpenAPI calls over real ecs/eflo SDK clients with a gated fake "
-                  "HTTP transport (harness-owned interleavings, drawn fault plans); goroutine stress with an interleaving-sound "
-                  "ledger, also built with -race",
+                  "HTTP transport (harness-owned interleavings, drawn fault plans, per-call contexts that are already cancelled / "
+                  "expired or cancelled mid-call); creates issued both from one fresh option and, node-controller style, from a "
+                  "caller-owned shared leading option plus a fresh one (also through CreateNetworkInterfaceV2); goroutine stress "
+                  "with an interleaving-sound ledger, also built with -race",
         rule="cases drawn by rapid: a pool of canonical parameter sets (one-field neighbours, tag maps of 0-12 entries rebuilt per "
-             "attempt in a drawn insertion order, every set attempted >= 8 times) and a history of attempts; non-trivial = an "
+             "attempt in a drawn insertion order, every set attempted >= 8 times) and a history of attempts (each create drawn as "
+             "single-option or shared-leading-option call; on the wire each call drawn with a live, cancelled or expired context "
+             "and attempts optionally cancelled while waiting); non-trivial = an "
              "ecs-create set with >= 2 tags was attempted, or a fail->retry pair occurred, or >= 2 requests with equal parameters "
              "were in flight together; distinct = distinct scenario hash",
         assumptions=[
@@ -19,8 +23,13 @@ PROPS = {
             "(tags as a set of pairs, security groups as a set); attempts of one parameter set keep the security-group order",
             "with several failed attempts of equal parameters a retry may carry the token of any of them (multiset reading)",
             "fewer than 500 live parameter sets (the generator's LRU is not driven to eviction)",
+            "a caller that passes the same leading option object to every create passes 'the same parameters' each time: the "
+            "client is expected not to write into caller-owned option values",
+            "a call aborted on the client side before anything is sent is not an attempt of its own: the tokens parked by earlier "
+            "failed attempts must still be carried by the following retries; it may park one token the wire never saw",
         ],
-        level_text="generated histories, fault plans and harness-owned interleavings against an independent ledger model; "
+        level_text="generated histories, fault plans, call contexts, option-passing styles and harness-owned interleavings against an "
+                   "independent ledger model; "
                    "goroutine stress repeated many times and under the race detector; exploration, not proof",
         level_note="trusted base: the alibaba-cloud SDK request serialisation (the token is read off the wire), rapid; "
                    "a token of a succeeded attempt being issued again for the same parameters is recorded but not judged "
